@@ -487,7 +487,7 @@ fn kb_char_sweep(rep: &Report) {
         let (bi, chunk) = work[w];
         let (cfg, parts) = &bases[bi];
         let kb: Vec<char> = parts.kb.clone().unwrap().chars().collect();
-        let mut try_one = |m: Vec<char>, what: String, l: &mut Local| {
+        let try_one = |m: Vec<char>, what: String, l: &mut Local| {
             let ms: String = m.iter().collect();
             let mut p2 = parts.clone();
             p2.kb = Some(ms.clone());
